@@ -4,7 +4,7 @@ import json
 META = {
     "level": "exploration",
     "technique": "TLA+ byte-count model of build_query_response's packing loop with the real constants (packet <= 9000, decoded = fitting addresses; 3 canaries); TLC-enumerated address lists + bulk lists around the records-per-packet limit + seeded random lists built and re-parsed by the real code (verif hook); TLC evaluates the relation Post on every record; random / mutated / truncated / spliced packets fed to the real parser (no panic)",
-    "text": "TLC checks the packing model (real constants, address length and kind classes, up to 60 addresses) for PacketFits and Exact and rejects three canaries (record budget 300, quoting with stale length byte, truncation instead of skipping). TLC enumerates all address lists of length <= 2 (thorough 3) over 10 address classes (lengths 254/255/256, space, quote, non-ASCII, already /p2p-suffixed, foreign /p2p) x both peer-id forms plus bulk lists of 25..59 long addresses; the driver adds seeded random lists (up to 100 addresses). Each list is encoded by the real build_query_response and every packet is parsed by the real MdnsPacket::new_from_bytes; TLC evaluates Post: no panic, every packet <= 9000 bytes and parseable, all peers = the advertiser, decoded bag = advertised addresses whose TXT string fits 255 bytes (non-ASCII ones may be excluded), nothing foreign. 4 x N random/mutated/truncated/spliced packets plus the recorded regression inputs are parsed: no panic (every distinct panic message is a record of its own).",
+    "text": "TLC checks the packing model (real constants, address length and kind classes, up to 60 addresses) for PacketFits and Exact and rejects three canaries (record budget 300, quoting with stale length byte, truncation instead of skipping). TLC enumerates all address lists of length <= 2 (thorough 3) over 10 address classes (lengths 254/255/256, space, quote, non-ASCII, already /p2p-suffixed, foreign /p2p) x both peer-id forms plus bulk lists of 25..59 long addresses; the driver adds seeded random lists (up to 100 addresses). Each list is encoded by the real build_query_response and every packet is parsed by the real MdnsPacket::new_from_bytes; TLC evaluates Post: no panic, every packet <= 9000 bytes and parseable, all peers = the advertiser, decoded bag = advertised addresses whose TXT string fits 255 bytes (non-ASCII ones may be excluded), nothing foreign. 3124 well-formed responses whose TXT character-strings run through a grammar (every string over quote, backslash, letter, space, '=' up to length 4, alone / behind dnsaddr= / behind a good string / inside an opening quote), 4 x N random/mutated/truncated/spliced packets plus the recorded regression inputs are parsed: no panic (every distinct panic message is a record of its own).",
     "note": "Exclusion of non-ASCII addresses is accepted (the builder documents it). Address translation in extract_discovered is outside this property. Exploration level: a pure encode/decode function pair over generated inputs. Open finding: a crafted TSIG record makes the dependency hickory-proto 0.26.1 overflow (panic only with overflow checks); it is fed deterministically as a regression input and reported as KNOWN-FINDING.",
     "design_ref": "6/C55",
 }
